@@ -106,6 +106,8 @@ class C:
         o = C.of(o)
         if o.is_real():
             d = Sym(o.re)
+            if self.is_real():
+                return C((Sym(self.re) / d).t)
             return C((Sym(self.re) / d).t, (Sym(self.im) / d).t)
         n = self * o.conjugate()
         d = Sym(z3.simplify(o.re * o.re + o.im * o.im))
@@ -478,6 +480,7 @@ class SArr:
         self.wmap = wmap          # idx(view) -> (idx(base), in-range z3 Bool) for write-through
         self.name = name
         self.readonly = False
+        self.struct = None        # closed-form description for sums/max: ('const', v) | ('affine', a, b) | ('concat', [arrays])
 
     # --- construction helpers
     @staticmethod
@@ -646,7 +649,7 @@ class SArr:
         tgt._set_elem(f)
 
     # --- arithmetic
-    def _binop(self, o, f, rev=False):
+    def _binop(self, o, f, rev=False, kind=None):
         if isinstance(o, SArr):
             a, b = (o, self) if rev else (self, o)
             return broadcast2(a, b, f)
@@ -654,35 +657,40 @@ class SArr:
             return NotImplemented
         ov = LF.of(o)
         if rev:
-            return elementwise(self, lambda v: f(ov, v))
-        return elementwise(self, lambda v: f(v, ov))
+            r = elementwise(self, lambda v: f(ov, v))
+        else:
+            r = elementwise(self, lambda v: f(v, ov))
+        r.struct = _struct_map(self, (lambda v: f(ov, v)) if rev else (lambda v: f(v, ov)), kind)
+        return r
 
     def __add__(self, o):
-        return self._binop(o, lambda a, b: a + b)
+        return self._binop(o, lambda a, b: a + b, kind="add")
 
     def __radd__(self, o):
-        return self._binop(o, lambda a, b: a + b, rev=True)
+        return self._binop(o, lambda a, b: a + b, rev=True, kind="add")
 
     def __sub__(self, o):
-        return self._binop(o, lambda a, b: a - b)
+        return self._binop(o, lambda a, b: a - b, kind="add")
 
     def __rsub__(self, o):
         return self._binop(o, lambda a, b: a - b, rev=True)
 
     def __mul__(self, o):
-        return self._binop(o, lambda a, b: a * b)
+        return self._binop(o, lambda a, b: a * b, kind="mul")
 
     def __rmul__(self, o):
-        return self._binop(o, lambda a, b: a * b, rev=True)
+        return self._binop(o, lambda a, b: a * b, rev=True, kind="mul")
 
     def __truediv__(self, o):
-        return self._binop(o, lambda a, b: a / b)
+        return self._binop(o, lambda a, b: a / b, kind="mul")
 
     def __rtruediv__(self, o):
         return self._binop(o, lambda a, b: a / b, rev=True)
 
     def __neg__(self):
-        return elementwise(self, lambda v: -v)
+        r = elementwise(self, lambda v: -v)
+        r.struct = _struct_map(self, lambda v: -v, "mul")
+        return r
 
     def __pow__(self, e):
         return elementwise(self, lambda v: LF(v.value() ** e))
@@ -724,6 +732,66 @@ class SArr:
 
     def __bool__(self):
         raise Unsupported("truth value of an array")
+
+
+def _struct_map(a, g, kind):
+    """propagate the closed-form description through an elementwise map with a scalar (g is affine in its argument)"""
+    st = a.struct
+    if st is None or kind is None:
+        return None
+    if st[0] == "const":
+        return ("const", g(LF.of(st[1])))
+    if st[0] == "affine":
+        a0 = g(LF.of(st[1]))
+        if kind == "add":
+            return ("affine", a0, st[2])
+        # multiplicative: slope scales like the value with zero offset
+        b = g(LF.of(st[1]) + LF.of(st[2])) - a0
+        return ("affine", a0, b)
+    if st[0] == "concat":
+        parts = []
+        for p in st[1]:
+            ps = _struct_map(p, g, kind)
+            if ps is None:
+                return None
+            q = SArr(p.shape, None)
+            q.struct = ps
+            parts.append(q)
+        return ("concat", parts)
+    return None
+
+
+def struct_sum(a):
+    st = a.struct
+    n = prod(a.shape)
+    if st is None:
+        return None
+    if st[0] == "const":
+        return LF.of(st[1]) * C.of(n)
+    if st[0] == "affine":
+        nn = S(n)
+        return LF.of(st[1]) * C.of(nn) + LF.of(st[2]) * C.of(nn * (nn - 1) / 2)
+    if st[0] == "concat":
+        acc = LF()
+        for p in st[1]:
+            ps = struct_sum(p)
+            if ps is None:
+                return None
+            acc = acc + ps
+        return acc
+    return None
+
+
+def struct_max(a):
+    st = a.struct
+    if st is None:
+        return None
+    n = prod(a.shape)
+    if not isinstance(n, int) or n < 1:
+        side_obligation("def:max-of-nonempty-array", _lift(n) >= 1)
+    if st[0] == "const":
+        return LF.of(st[1])
+    return None
 
 
 def as_dtype(d):
@@ -969,7 +1037,9 @@ def reshape(a, shape):
             for i, j in zip(ko, kn):
                 out[i] = k[j]
             return tuple(out), z3.BoolVal(True)
-        return a._view(tuple(shape), wmap)
+        v = a._view(tuple(shape), wmap)
+        v.struct = a.struct
+        return v
     # unit extents that are symbolic-but-provably-1 : fall through to the general flat map
     return _reshape_general(a, shape)
 
@@ -1048,6 +1118,10 @@ def roll(a, shift, axis=None):
 
 
 def sum_(a, axis=None, keepdims=False):
+    if axis is None and a.struct is not None and not keepdims:
+        r = struct_sum(a)
+        if r is not None:
+            return r.value().item() if r.is_value() else r
     if axis is None:
         axes = list(range(a.ndim))
     elif isinstance(axis, (int, Sym)):
@@ -1121,9 +1195,11 @@ def tile(a, reps):
 
 
 def concatenate(arrs, axis=0):
-    arrs = list(arrs)
+    arrs = [a if isinstance(a, SArr) else SArr((), (lambda k, a=a: LF.of(a))) for a in arrs]
     ax = int(axis)
     nd = arrs[0].ndim
+    if any(a.ndim == 0 for a in arrs):
+        raise SValueError("zero-dimensional arrays cannot be concatenated")
     ax %= nd
     for a in arrs[1:]:
         if a.ndim != nd:
@@ -1149,7 +1225,10 @@ def concatenate(arrs, axis=0):
             g = z3.And(j >= 0, j < _lift(a.shape[ax]))
             r = r + sn(tuple(kk)).guarded(g)
         return r
-    return SArr(tuple(shape), el, arrs[0].dtype)
+    r = SArr(tuple(shape), el, arrs[0].dtype)
+    if nd == 1:
+        r.struct = ("concat", list(arrs))
+    return r
 
 
 def matmul(a, b):
@@ -1263,7 +1342,9 @@ def _zeros(shape, dtype=None, **kw):
     for s in shape:
         if not bool(S(s) >= 0):
             raise SValueError("negative dimensions are not allowed")
-    return SArr(tuple(shape), lambda k: LF(), as_dtype(dtype) if dtype is not None else FDT)
+    r = SArr(tuple(shape), lambda k: LF(), as_dtype(dtype) if dtype is not None else FDT)
+    r.struct = ("const", LF())
+    return r
 
 
 def _ones(shape, dtype=None, **kw):
@@ -1273,7 +1354,9 @@ def _ones(shape, dtype=None, **kw):
         if not bool(S(s) >= 0):
             raise SValueError("negative dimensions are not allowed")
     one = LF(C1)
-    return SArr(tuple(shape), lambda k: one, as_dtype(dtype) if dtype is not None else FDT)
+    r = SArr(tuple(shape), lambda k: one, as_dtype(dtype) if dtype is not None else FDT)
+    r.struct = ("const", one)
+    return r
 
 
 def _argsort(a):
@@ -1335,7 +1418,9 @@ def _np_expand_dims(a, axis):
     if ax < 0:
         ax += a.ndim + 1
     idx.insert(ax, None)
-    return a[tuple(idx)]
+    r = a[tuple(idx)]
+    r.struct = a.struct
+    return r
 
 
 def _np_empty(shape, dtype=None, **kw):
@@ -1346,6 +1431,60 @@ def _np_empty(shape, dtype=None, **kw):
 
 def _np_shape(a):
     return a.shape
+
+
+def _np_linspace(start, stop, num=50, endpoint=True, **kw):
+    n = _ext(S(num))
+    if not endpoint:
+        raise Unsupported("linspace(endpoint=False)")
+    if not bool(S(n) >= 2):
+        # numpy: num == 1 gives [start]; num == 0 gives []
+        a = SArr((n,), lambda k: LF(C(start)), FDT)
+        a.struct = ("const", LF(C(start)))
+        return a
+    step = (S(stop) - S(start)) / (S(n) - 1)
+    a0 = LF(C(start))
+    b0 = LF(C(step))
+    a = SArr((n,), lambda k: a0 + b0 * C(k[0]), FDT)
+    a.struct = ("affine", a0, b0)
+    return a
+
+
+def _np_squeeze(a, axis=None):
+    if not isinstance(a, SArr):
+        return a
+    if axis is not None:
+        axes = [axis] if isinstance(axis, int) else list(axis)
+        axes = [x % a.ndim for x in axes]
+        for x in axes:
+            if not _is_one(a.shape[x]):
+                raise SValueError("cannot select an axis to squeeze out which has size not equal to one")
+        keep = [d for d in range(a.ndim) if d not in axes]
+    else:
+        # numpy drops EVERY axis whose extent is 1 - also a symbolic extent that happens to be 1 (path split)
+        keep = [d for d, e in enumerate(a.shape) if not _is_one(e)]
+    return reshape(a, [a.shape[d] for d in keep])
+
+
+def _np_max(a, axis=None):
+    if isinstance(a, SArr):
+        if axis is None:
+            r = struct_max(a)
+            if r is not None:
+                return r.value().item()
+        raise Unsupported("np.max of an array without a closed form")
+    return a
+
+
+def _np_size(a):
+    return a.size if isinstance(a, SArr) else 1
+
+
+def _np_sign(x):
+    if isinstance(x, SArr):
+        raise Unsupported("sign of array")
+    t = _lift(x)
+    return Sym(z3.If(t > 0, z3.IntVal(1), z3.If(t < 0, z3.IntVal(-1), z3.IntVal(0))))
 
 
 class _Numpy(_NS):
@@ -1383,6 +1522,12 @@ class _Numpy(_NS):
     shape = staticmethod(_np_shape)
     ceil = staticmethod(core.sym_ceil)
     floor = staticmethod(core.sym_floor)
+    linspace = staticmethod(_np_linspace)
+    squeeze = staticmethod(_np_squeeze)
+    max = staticmethod(_np_max)
+    amax = staticmethod(_np_max)
+    size = staticmethod(_np_size)
+    sign = staticmethod(_np_sign)
 
     @staticmethod
     def issubdtype(a, b):
@@ -1397,9 +1542,17 @@ NP = _Numpy()
 
 def builtins_ns():
     """names that shadow builtins inside the compiled repo code"""
-    return dict(max=core.sym_max, min=core.sym_min, all=core.sym_all, any=core.sym_any, sum=core.sym_sum,
+    return dict(max=core.sym_max, min=core.sym_min, all=core.sym_all, any=core.sym_any, sum=_builtin_sum,
                 abs=core.sym_abs, int=_int, range=sym_range, len=_len, isinstance=_isinstance, float=_float,
                 __pyvc_iter=pyvc_iter, __pyvc_and=pyvc_and, __pyvc_or=pyvc_or, __pyvc_not=pyvc_not, __pyvc_augstore=pyvc_augstore, __pyvc_cond=pyvc_cond)
+
+
+def _builtin_sum(it, start=0):
+    if isinstance(it, SArr):
+        if it.ndim != 1:
+            raise Unsupported("builtin sum over an n-d array")
+        return sum_(it) + start if start != 0 else sum_(it)
+    return core.sym_sum(it, start)
 
 
 _pyint = int
